@@ -4,7 +4,8 @@ From Coq Require Import List NArith Bool.
 From Coq.Strings Require Import Byte.
 From SP Require Import Bytes BaseX Encodings BaseXProofs.
 From Coq Require ZArith String.
-From SP Require Streams GoLang GoLang2 GoAst GoAstStreams GoAstProofs5b.
+From SP Require Streams GoLang GoLang2 GoAst GoAstEnc GoAstProofs5b.
+From SP Require GoAstDearmor GoAstProofs4c GoAstProofs7b.
 Import ListNotations.
 Open Scope N_scope.
 
@@ -66,7 +67,7 @@ End AnyEncoding.
 
 (* ---- source ties: the streaming base-X ENCODER (/repo/encoding/basex/stream.go), lemmas of proofs/GoAstProofs5b.v ---- *)
 (* The terms f_basex_encoder_Write and f_basex_encoder_Close are generated on every run from the Go syntax trees of
-   /repo/encoding/basex/stream.go (gen/GoAstStreams.v) and run by the evaluator of model/GoLang2.v.  [run2] is
+   /repo/encoding/basex/stream.go (gen/GoAstEnc.v) and run by the evaluator of model/GoLang2.v.  [run2] is
    run_func2 with the fuel as a parameter (run_func2 = run2 .. 300 by reflexivity): a `for` loop may iterate at most
    as often as the fuel left, so the theorems are stated for EVERY fuel F above an explicit bound that grows with
    the input — hence for every input — and the _300 corollaries are the instances for run_func2.
@@ -90,7 +91,7 @@ End AnyEncoding.
    statement about Write gives the object BEFORE that copy together with the final local p'; [pending_copy o' p'] is
    the object after it (the identity when the input ends on a block boundary). *)
 Section C10_source.
-Import ZArith GoLang GoLang2 GoAst GoAstStreams Streams GoAstProofs5b String.StringSyntax.
+Import ZArith GoLang GoLang2 GoAst GoAstEnc Streams GoAstProofs5b String.StringSyntax.
 Local Open Scope nat_scope.
 Variable en : encoding.
 Variable K : nat.
@@ -212,6 +213,126 @@ Theorem C10_source_encoder_Close_300 (o : gobj) :
 Proof. exact (go_encoder_Close_300 en K o Hibl HK). Qed.
 End C10_source.
 
+(* ---- source ties: the base-X CODEC (/repo/encoding/basex/encoding.go), lemmas of proofs/GoAstProofs7b.v ---- *)
+(* The terms f_basex_Encoding_{getByteType, IsValidByte, hasSkipBytes, decode, Decode, Encode} are generated on every run
+   from the Go syntax trees of /repo/encoding/basex/encoding.go (gen/GoAstDearmor.v) and run by the evaluator of
+   model/GoLang2.v (run_func2: outcome AND final environment) on ENCODED arguments, against model/BaseX.v — the
+   digit_of / is_skip, decode and encode the theorems of Section AnyEncoding above are about.  An *Encoding object is
+   [g_encoding en], built from the model's record en for EVERY en: decodeMap is the 256-entry table whose entry b is a
+   *big.Int object (hence != nil) when digit_of en b = Some d and nil otherwise, skipMap the table of the booleans
+   is_skip en b, then skipBytes, the alphabet, base256BlockLen = ibl, baseXBlockLen = obl, base.  A byte argument is
+   [g_byte b] = VInt of its value, for b : byte (so 0 <= b < 256 is the bound Go's type imposes).  Errors:
+   g_bx_opt maps the model's bx_err (CorruptInputError(offset) / ErrInvalidEncodingLength / nil).
+   [run_func2_at F] is run_func2 with the evaluator's fuel as a parameter (run_func2 = run_func2_at 300); a `for` loop
+   gets as many turns as there is fuel where it starts, so the loop theorems are stated for every fuel above a bound
+   that grows with the input (decode_turns = blocks scanned by the model's decode loop, <= len(src); encode_turns =
+   ceil(len(src)/ibl)); the _300 theorems are the instances for run_func2.  These are bounds on the EVALUATOR, not on
+   the Go code.  The per-block callees decodeBlock / encodeBlock (math/big) are externs with the model's meaning
+   (decode_block, encode_block). *)
+Section C10_source_codec.
+Import ZArith GoLang GoLang2 GoAst GoAstDearmor GoAstProofs4c GoAstProofs7b String.StringSyntax.
+Local Open Scope string_scope.
+
+(* enc.getByteType(b) = byte_type en b: 0 (normal) if digit_of en b is Some, else 1 (skip) if is_skip en b, else 2
+   (invalid); the receiver and b unchanged (the final environment is given in full).  For every encoding, every byte,
+   every extern table X.  No hypothesis. *)
+Theorem C10_source_getByteType (X : externs) (en : encoding) (b : byte) :
+  run_func2 X f_basex_Encoding_getByteType [g_encoding en; g_byte b]
+  = (ORet [VInt (byte_type en b)], [("enc", g_encoding en); ("b", g_byte b)]).
+Proof. exact (go_getByteType X en b). Qed.
+
+(* enc.IsValidByte(b) = valid_byte en b: b is a digit of the alphabet or a skip character.  No hypothesis. *)
+Theorem C10_source_IsValidByte (X : externs) (en : encoding) (b : byte) :
+  run_func2 X f_basex_Encoding_IsValidByte [g_encoding en; g_byte b]
+  = (ORet [VBool (valid_byte en b)], [("enc", g_encoding en); ("b", g_byte b)]).
+Proof. exact (go_IsValidByte X en b). Qed.
+
+(* enc.hasSkipBytes() = has_skip en: skipBytes is non-empty.  No hypothesis. *)
+Theorem C10_source_hasSkipBytes (X : externs) (en : encoding) :
+  run_func2 X f_basex_Encoding_hasSkipBytes [g_encoding en]
+  = (ORet [VBool (has_skip en)], [("enc", g_encoding en)]).
+Proof. exact (go_hasSkipBytes X en). Qed.
+
+(* enc.decode(dst, src) returns (len d, e) for (d, e) = BaseX.decode en src — all blocks decoded before the first
+   error, and that error — when d fits dst; when it does not, the evaluator is stuck at the call of decodeBlock whose
+   block no longer fits (OStuck "call": the Go code panics there, slice bounds out of range).  enc and src unchanged.
+   WHAT IS OBSERVED OF dst: nothing — decodeBlock writes through the slice EXPRESSION dst[dp:], which is not a place of
+   model/GoLang2.v, so the decoded bytes cannot be written back: the theorem ties count and error and shows dst
+   unchanged in the evaluator (the bytes are tied one level up, C10_source_Encoding_Decode).
+   Hypothesis: decode_turns en src + 8 <= F (evaluator fuel). *)
+Theorem C10_source_Encoding_decode (en : encoding) (F : nat) (dst src : bytes) :
+  (decode_turns en src + 8 <= F)%nat ->
+  let r := run_func2_at (S F) (ext_dec en) f_basex_Encoding_decode [g_encoding en; VBytes dst; VBytes src] in
+  if Nat.leb (List.length (fst (decode en src))) (List.length dst)
+  then fst r = ORet [VInt (Z.of_nat (List.length (fst (decode en src)))); g_bx_opt (snd (decode en src))] /\
+       lookup "enc" (snd r) = Some (g_encoding en) /\
+       lookup "dst" (snd r) = Some (VBytes dst) /\
+       lookup "src" (snd r) = Some (VBytes src)
+  else r = (OStuck "call", []).
+Proof. exact (go_Encoding_decode en F dst src). Qed.
+
+(* the same at the fuel of run_func2.  Hypothesis: at most 291 blocks scanned. *)
+Theorem C10_source_Encoding_decode_300 (en : encoding) (dst src : bytes) :
+  (decode_turns en src <= 291)%nat ->
+  let r := run_func2 (ext_dec en) f_basex_Encoding_decode [g_encoding en; VBytes dst; VBytes src] in
+  if Nat.leb (List.length (fst (decode en src))) (List.length dst)
+  then fst r = ORet [VInt (Z.of_nat (List.length (fst (decode en src)))); g_bx_opt (snd (decode en src))] /\
+       lookup "enc" (snd r) = Some (g_encoding en) /\
+       lookup "dst" (snd r) = Some (VBytes dst) /\
+       lookup "src" (snd r) = Some (VBytes src)
+  else r = (OStuck "call", []).
+Proof. exact (go_Encoding_decode_300 en dst src). Qed.
+
+(* enc.Decode(dst, src), the exported wrapper `return enc.decode(dst, src)`: here dst is a VARIABLE of the caller, so the
+   extern "Encoding.decode" (ext_Dec) has the meaning of the theorem above PLUS the bytes; Decode returns (len d, e)
+   and leaves dst with the decoded bytes at its front (put_front), the rest untouched; stuck where the callee panics
+   (d does not fit).  The outcome AND the whole final environment, for every receiver value E.  No hypothesis. *)
+Theorem C10_source_Encoding_Decode (en : encoding) (E : gval) (dst src : bytes) :
+  run_func2 (ext_Dec en) f_basex_Encoding_Decode [E; VBytes dst; VBytes src]
+  = let r := decode en src in
+    if Nat.leb (List.length (fst r)) (List.length dst)
+    then (ORet [VInt (Z.of_nat (List.length (fst r))); g_bx_opt (snd r)],
+          [("enc", E); ("dst", VBytes (put_front dst (fst r))); ("src", VBytes src); ("n", VInt 0); ("err", VNil);
+           ("r'0", VInt (Z.of_nat (List.length (fst r)))); ("r'1", g_bx_opt (snd r))])
+    else (OStuck "call", []).
+Proof. exact (go_Encoding_Decode en E dst src). Qed.
+
+(* enc.Encode(dst, src): dst ends as put_front dst (BaseX.encode en src) — the encoding at the front, the rest of dst
+   untouched — when the encoding fits; otherwise PANIC (encodeBlock indexes past its window), exactly when
+   len(encode en src) > len(dst).  Hypotheses: 0 < base256BlockLen (with 0 the Go loop does not terminate; NewEncoding
+   is never called with 0); encode_turns en src + 10 <= F (evaluator fuel). *)
+Theorem C10_source_Encoding_Encode (en : encoding) (F : nat) (dst src : bytes) :
+  (0 < BaseX.ibl en)%N -> (encode_turns en src + 10 <= F)%nat ->
+  let r := run_func2_at (S F) (ext_enc en) f_basex_Encoding_Encode [g_encoding en; VBytes dst; VBytes src] in
+  if Nat.leb (List.length (encode en src)) (List.length dst)
+  then fst r = ORet [] /\
+       lookup "dst" (snd r) = Some (VBytes (put_front dst (encode en src))) /\
+       lookup "enc" (snd r) = Some (g_encoding en) /\
+       lookup "src" (snd r) = Some (VBytes src)
+  else r = (OPanic, []).
+Proof. exact (go_Encoding_Encode en F dst src). Qed.
+
+(* the same at the fuel of run_func2.  Hypotheses: 0 < base256BlockLen; at most 289 blocks. *)
+Theorem C10_source_Encoding_Encode_300 (en : encoding) (dst src : bytes) :
+  (0 < BaseX.ibl en)%N -> (encode_turns en src <= 289)%nat ->
+  let r := run_func2 (ext_enc en) f_basex_Encoding_Encode [g_encoding en; VBytes dst; VBytes src] in
+  if Nat.leb (List.length (encode en src)) (List.length dst)
+  then fst r = ORet [] /\
+       lookup "dst" (snd r) = Some (VBytes (put_front dst (encode en src))) /\
+       lookup "enc" (snd r) = Some (g_encoding en) /\
+       lookup "src" (snd r) = Some (VBytes src)
+  else r = (OPanic, []).
+Proof. exact (go_Encoding_Encode_300 en dst src). Qed.
+End C10_source_codec.
+
+Print Assumptions C10_source_getByteType.
+Print Assumptions C10_source_IsValidByte.
+Print Assumptions C10_source_hasSkipBytes.
+Print Assumptions C10_source_Encoding_decode.
+Print Assumptions C10_source_Encoding_decode_300.
+Print Assumptions C10_source_Encoding_Decode.
+Print Assumptions C10_source_Encoding_Encode.
+Print Assumptions C10_source_Encoding_Encode_300.
 Print Assumptions C10_source_encoder_Write_run.
 Print Assumptions C10_source_encoder_Close_run.
 Print Assumptions C10_source_gw_write_model.
